@@ -361,3 +361,7 @@ Definition safe_line (line : string) : bool :=
 Definition line_ok (line : string) : bool := skip_line line || safe_line line.
 
 Definition comma_free (f : string) : bool := negb (has_char c_comma f).
+
+(* a field that survives SavePolicy + LoadPolicyLine: no comma, no quote, no outer blanks *)
+Definition safe_field (f : string) : bool :=
+  negb (has_char c_comma f) && negb (has_char c_quote f) && String.eqb (trim f) f.
